@@ -1,5 +1,5 @@
 """C08 — heap component; see harness/heap.py"""
-from .. import heap, common
+from .. import heap, refgraph, common
 
 PROP = "C08"
 PREFIX = ('C08:',)
@@ -16,25 +16,39 @@ def _run(tier, seed):
     return _cache[(tier, seed)]
 
 
+def _rg(tier, seed):
+    if ("rg", tier, seed) not in _cache:
+        _cache[("rg", tier, seed)] = refgraph.run_all(tier, seed)
+    return _cache[("rg", tier, seed)]
+
+
 def run(tier, seed):
     r = _run(tier, seed)
+    g = _rg(tier, seed)
     return {
-        "failures": _mine(r["failures"]),
-        "mismatches": r["mismatches"],
-        "evaluations": r["lines"],
-        "distinct_nontrivial": r["distinct"],
-        "traces": r["lines"],
+        "failures": _mine(r["failures"]) + _mine(g["failures"]),
+        "mismatches": r["mismatches"] + g["mismatches"],
+        "evaluations": r["lines"] + g["lines"],
+        "distinct_nontrivial": r["distinct"] + g["distinct"],
+        "traces": r["lines"] + g["lines"],
         "rule": "random types biased to hold Ref / UnionRef slots (in structs and as array items), three poison-filled buffers in two "
                 "contexts with traced allocate(): construction; copy-construction from the object or from an earlier copy into the same "
                 "buffer / another buffer of the context / another context; a scalar write to source or copy; binding of a reference "
                 "slot to an object of the same buffer, an object of another buffer or context, plain data, None; writes through the "
                 "reference and through the original; growth of the holder's buffer - after every step the bytes of ALL buffers and the "
-                "deep values are compared with the executable Lean heap model. " + "Oracle C08: aliasing (same offset, no allocation, writes visible both ways), fresh disjoint referent in the holder's buffer for plain data / foreign objects, None reads back None with member index -1, and after EVERY step every non-null reference reachable from every live object resolves (from the raw slot bytes) to the start of a live extent of the recorded member type in its own buffer - also after growth.",
-        "samples": r["samples"],
-        "tags": r["tags"],
-        "correspondence": {"heap": {"lines": r["lines"], "mismatches": len(r["mismatches"]), "type_histogram": r["hist"]}},
+                "deep values are compared with the executable Lean heap model. " + "Oracle C08: aliasing (same offset, no allocation, writes visible both ways), fresh disjoint referent in the holder's buffer for plain data / foreign objects, None reads back None with member index -1, and after EVERY step every non-null reference reachable from every live object resolves (from the raw slot bytes) to the start of a live extent of the recorded member type in its own buffer - also after growth. "
+                "Component rg (tie of the PROOF model the history theorem C08_ref_history is about): random universes of node classes "
+                "(static structs of Int64 / Ref / UnionRef fields), random buffer configurations (both CPU kinds, capacity 0..1000, "
+                "alignment 1..64, grow steps), random histories of construct / bind-to-existing / bind-to-plain-data / "
+                "bind-to-foreign-object / bind-to-null / write-through-original / write-through-ref / raw allocations / growth; after "
+                "every operation capacity, checksum of all bytes and what every reference slot of every live node denotes are compared "
+                "with the model, and the same oracle is evaluated from the raw slot bytes.",
+        "samples": r["samples"] + g["samples"],
+        "tags": {**r["tags"], **{"rg." + k: v for k, v in g["tags"].items()}},
+        "correspondence": {"heap": {"lines": r["lines"], "mismatches": len(r["mismatches"]), "type_histogram": r["hist"]},
+                           "rg": {"cases": g["cases"], "lines": g["lines"], "mismatches": len(g["mismatches"])}},
         "assumptions": ['offsets below 2^62', 'class names identify member types (array classes differing only in axis order share a name: not generated together)'],
-        "partial": ['the history-level invariant (all references of all live objects valid after every operation) is checked by the oracle on generated histories; the kernel-checked theorems are slot-level (C08_null, C08_alias, C08_union_member, C08_growth_*) plus C08_copy_fresh = C04_alloc'],
+        "partial": ['the history-level invariant is a theorem (C08_ref_history) for node classes made of 8-byte scalars, Ref and UnionRef fields inside one buffer; for the rest of the grammar (references held in arrays and dynamic structs, referents that are arrays) it is checked by the oracle on generated histories against the executable heap model'],
     }
 
 
@@ -42,12 +56,25 @@ def search(mismatches, seed):
     out = []
     for s in range(2):
         out.extend(_mine(heap.run_all("quick", seed + 8000 + s, n=500)["failures"]))
+        out.extend(_mine(refgraph.run_all("quick", seed + 8000 + s, n=600)["failures"]))
         if out:
             break
     return out
 
 
 def replay(rep):
+    f = rep.get("failure") or (rep.get("mismatches") or [{}])[0]
+    if (f.get("replay") or {}).get("component") == "rg":
+        fails, mism = refgraph.replay(f["replay"])
+        for x in fails[:5]:
+            print("oracle:", x.key, x.what[:300])
+        for l, e, g in mism[:3]:
+            print(f"tie: `{l}` impl `{e[:160]}` model `{g[:160]}`")
+        if _mine(fails):
+            print(f"VIOLATION property={PROP} replay=(replayed)")
+            return 1
+        print("replay: property holds on this input" + (" (model and code still differ)" if mism else ""))
+        return 0
     out = _mine(heap.run_all(rep.get("tier", "quick"), rep.get("seed", 0))["failures"])
     for x in out[:5]:
         print("oracle:", x.key, x.what[:300])
